@@ -708,6 +708,21 @@ def gen_mix(rng):
     return sc
 
 
+def gen_pause(rng):
+    """a run made of several simulate_until_max_time calls (stops logged as `pause` pseudo-events)"""
+    base = rng.choice([gen_core1, gen_tandem, gen_tandem, gen_prio, gen_sched, gen_renege, gen_cls,
+                       lambda r: gen_prio(r, preempt=True), lambda r: gen_sched(r, pre_choices=(1, 2, 3))])
+    sc = base(rng)
+    T = sc["T"]
+    k = rng.randint(1, 4)
+    sc["splits"] = sorted(set(rng.randint(0, max(T - 1, 1)) for _ in range(k)))
+    sc["splits"] = [t for t in sc["splits"] if t < T]
+    for nd in sc["nodes"]:
+        if nd.get("c", 1) == 0 and nd.get("kind", "std") == "std":
+            nd["c"] = 1
+    return sc
+
+
 def gen_stopcount(rng):
     base = rng.choice([gen_core1, gen_tandem, gen_prio, gen_renege, gen_cls])
     sc = base(rng)
@@ -746,6 +761,7 @@ def gen_stopcount(rng):
 FAMILIES = {
     "stopcount": gen_stopcount,
     "trk": gen_trk,
+    "pause": gen_pause,
     "infblock": gen_infblock,
     "ppsched": gen_ppsched,
     "slotpre": gen_slotpre,
@@ -890,6 +906,16 @@ def mc_instances(name, tier):
             fam.append({"N": 1, "K": 1, "nodes": [{"kind": "ps", "c": cap, "psR": R}],
                         "arrS": [[[6, 12]]], "svcS": [[[12, 24]]], "route": [tm([[0]])], "T": 84 if not big else 108})
         return [(fam, 5 if not big else 6)]
+    if name == "pause":
+        fam = []
+        for c, splits in [(1, [2]), (2, [1, 3]), (1, [0, 2, 4])]:
+            fam.append({"N": 1, "K": 1, "nodes": [{"c": c, "qcap": 1}], "arrS": [[[1, 2]]], "svcS": [[[1, 3]]],
+                        "route": [tm([[1]])], "T": 6 if not big else 8, "splits": splits})
+        fam.append({"N": 2, "K": 1, "nodes": [{"c": 1, "qcap": 0}, {"c": 1, "qcap": 0}], "arrS": [[[1, 2]], [[]]],
+                    "svcS": [[[1, 2]], [[2]]], "route": [tm([[0, 4], [0, 0]])], "T": 6 if not big else 8, "splits": [2, 4]})
+        fam.append({"N": 1, "K": 1, "nodes": [{"kind": "sched", "c": 0, "sched": {"nums": [1, 2], "ends": [2, 5], "pre": 0, "off": 0}}],
+                    "arrS": [[[1, 2]]], "svcS": [[[2, 3]]], "route": [tm([[0]])], "T": 8 if not big else 10, "splits": [3, 5]})
+        return [(fam, 4 if not big else 5)]
     if name == "exact":
         out = []
         for base in ("tandem", "sched", "renege"):
